@@ -213,6 +213,7 @@ def ellipse_rules(repo, rep, orc, Rr):
         # the squares and the product of two decimals: exactly singular as decimals, a rounding away from it as doubles
         wit.append(('vcv = [[%g, %g, 0], [%g, %g, 0], [0, 0, 1]] (rank one)' % (v00, v01, v01, v11), [[v00, v01, 0.0], [v01, v11, 0.0], [0.0, 0.0, 1.0]]))
     common.sqrt_boundary_rule(repo, rep, 'geodepy.statistics', 'error_ellipse', f.params[0].name, wit, 'random symmetric PSD matrices including singular ones')
+    common.unclamped_root_rule(repo, rep, 'geodepy.statistics', 'relative_error', 'a covariance without an up component')
     # relative error
     g = repo.func('geodepy.statistics', 'relative_error')
     rep.analysed(g)
